@@ -197,6 +197,7 @@ func main() {
 	}
 	replay := ""
 	secsOverride := 0
+	var planOverride []Plan
 	for i := 2; i < len(os.Args); i++ {
 		switch os.Args[i] {
 		case "--tier":
@@ -208,6 +209,31 @@ func main() {
 		case "--secs":
 			i++
 			secsOverride, _ = strconv.Atoi(os.Args[i])
+		case "--plan":
+			// debugging aid: "scenario:pb:db[:race][:fine][:noiter]" replaces the registered plan;
+			// evidence then goes to work/ instead of evidence/
+			i++
+			f := strings.Split(os.Args[i], ":")
+			p := Plan{Scenario: f[0]}
+			if len(f) > 1 {
+				p.PB, _ = strconv.Atoi(f[1])
+			}
+			if len(f) > 2 {
+				p.DB, _ = strconv.Atoi(f[2])
+			}
+			for _, x := range f[3:] {
+				switch x {
+				case "race":
+					p.Race = true
+				case "fine":
+					p.Fine = true
+				case "noiter":
+					p.NoIter = true
+				case "seq":
+					p.Kind = "seq"
+				}
+			}
+			planOverride = append(planOverride, p)
 		}
 	}
 	seed, _ := strconv.Atoi(os.Getenv("VERIF_SEED"))
@@ -255,6 +281,11 @@ func main() {
 	}
 	if secsOverride > 0 {
 		secs = secsOverride
+	}
+	evidenceDir := filepath.Join(verif, "evidence")
+	if planOverride != nil {
+		pl = planOverride
+		evidenceDir = filepath.Join(verif, "work")
 	}
 	type job struct {
 		plan    Plan
@@ -486,8 +517,8 @@ func main() {
 		"violations":  nviol,
 	}
 	js, _ := json.MarshalIndent(ev, "", " ")
-	os.MkdirAll(filepath.Join(verif, "evidence"), 0o755)
-	os.WriteFile(filepath.Join(verif, "evidence", prop+".json"), js, 0o644)
+	os.MkdirAll(evidenceDir, 0o755)
+	os.WriteFile(filepath.Join(evidenceDir, prop+".json"), js, 0o644)
 	fmt.Printf("check %s tier=%s: %d variants, %d executions (%d pruned), %d states, %d steps, %d outcome classes, exhaustive=%v, %.1fs\n",
 		prop, tier, len(jobs), execs, pruned, states, transitions, outcomes, exhaustive, time.Since(start).Seconds())
 	os.RemoveAll(work)
